@@ -1090,6 +1090,93 @@ def run_range_histories(depth):
     return counters["py_range_history_nodes"], failures, counters
 
 
+def run_callbacks(level):
+    """C03 through the Python front end: CustomModel / ScipyModel with well-formed cdfs and ARBITRARY approximate
+    inverses (the documentation: 'only used to speed up the function inversion'): exactly invertible, whole support
+    encodable, arbitrary words decode into the support and re-encode to themselves"""
+    import scipy.stats
+    failures, n = [], 0
+    counters = {"py_callback_models": 0, "py_callback_symbols_round_tripped": 0, "py_callback_words_inverted": 0}
+    def fail(what, detail):
+        if len([f for f in failures if f["what"] == what]) < 3:
+            failures.append({"what": what, "detail": detail})
+    def logistic(loc, scale):
+        return lambda x, *a: 1.0 / (1.0 + math.exp(-max(min((x - loc) / scale, 700.0), -700.0)))
+    cdfs = [("logistic(0.3, 1.7)", logistic(0.3, 1.7)), ("logistic(-40, 0.01)", logistic(-40.0, 0.01)), ("logistic(1e6, 3)", logistic(1e6, 3.0)),
+            ("step at 0.5", lambda x, *a: 0.0 if x < 0.5 else 1.0), ("constant 0", lambda x, *a: 0.0), ("constant 1", lambda x, *a: 1.0), ("constant 0.5", lambda x, *a: 0.5),
+            ("linear on [-5, 5]", lambda x, *a: min(max((x + 5.0) / 10.0, 0.0), 1.0))]
+    def exact_logit(loc, scale):
+        return lambda xi, *a: loc + scale * math.log(max(xi, 1e-300) / max(1.0 - xi, 1e-300))
+    hints = [("exact-ish", exact_logit(0.3, 1.7)), ("constant 0", lambda xi, *a: 0.0), ("constant -1e9", lambda xi, *a: -1e9), ("constant 1e9", lambda xi, *a: 1e9),
+             ("shifted by 1000", lambda xi, *a: exact_logit(0.3, 1.7)(xi) + 1000.0), ("nan", lambda xi, *a: float("nan")), ("inf", lambda xi, *a: float("inf")), ("-inf", lambda xi, *a: float("-inf"))]
+    # (a support of more than 2^24 symbols cannot be given non-zero probabilities at 24 bits: a documented refusal)
+    supports = [(-5, 5), (0, 1), (-100, 100), (-2**20, 2**20), (2**31 - 3, 2**31 - 1)] + ([(-2**31, -2**31 + 1), (2**31 - 2**23, 2**31 - 1), (-2**31, -2**31 + 2**23), (-2**23, 2**23 - 2)] if level >= 1 else [])
+    words_list = [np.array(w, dtype=np.uint32) for w in ([0x12345678, 0x9abcdef0, 0x0fedcba9], [0, 0, 1], [0xffffffff] * 3, [1, 0x80000000])]
+    def judge(name, model, lo, hi):
+        counters["py_callback_models"] += 1
+        span = hi - lo
+        syms = sorted(set([lo, hi, lo + 1, hi - 1, lo + span // 2, lo + span // 3] + ([0, 1, -1] if lo <= -1 and hi >= 1 else []) + (list(range(lo, hi + 1)) if span <= 20 else [])))
+        syms = [x for x in syms if lo <= x <= hi]
+        for s_ in syms:
+            c = ANS(); c.encode_reverse(s_, model)
+            got = int(c.decode(model))
+            counters["py_callback_symbols_round_tripped"] += 1
+            if got != s_ or not c.is_empty():
+                fail("Python front end | CustomModel / ScipyModel | a symbol of the support does not round-trip", f"{name}: {s_} -> {got}")
+                return
+        arr = np.array(syms, dtype=np.int32)
+        r = RENC(); r.encode(arr, model)
+        got = r.get_decoder().decode(model, len(arr))
+        if not np.array_equal(got, arr):
+            fail("Python front end | CustomModel / ScipyModel | range coder round trip over the support fails", f"{name}: {list(arr)} -> {list(got)}")
+        for w in words_list:
+            c = ANS(w, True)
+            out = c.decode(model, 3)
+            if any(int(o) < lo or int(o) > hi for o in out):
+                fail("Python front end | CustomModel / ScipyModel | arbitrary words decode to a symbol outside the support", f"{name}: {list(out)}")
+                continue
+            c.encode_reverse(out, model)
+            counters["py_callback_words_inverted"] += 1
+            if not np.array_equal(c.get_compressed(unseal=True), w):
+                fail("Python front end | CustomModel / ScipyModel | not exactly invertible: decoding arbitrary words and re-encoding does not restore them", f"{name}: words {[hex(int(x)) for x in w]} decode to {list(out)}")
+    with Quiet():
+        i = 0
+        for cname, cdf in cdfs:
+            for hname, hint in hints:
+                for lo, hi in supports:
+                    i += 1; n += 1
+                    name = f"CustomModel(cdf = {cname}, approximate inverse = {hname}, {lo}, {hi})"
+                    try:
+                        judge(name, M.CustomModel(cdf, hint, lo, hi), lo, hi)
+                    except BaseException as e:
+                        fail("Python front end | CustomModel | a well-formed cdf with an arbitrary approximate inverse is refused or fails", f"{name}: {type(e).__name__}: {str(e)[:140]}")
+        # per-symbol parameters for the callbacks
+        fam = M.CustomModel(lambda x, loc, scale: 1.0 / (1.0 + math.exp(-max(min((x - loc) / scale, 700.0), -700.0))), lambda xi, loc, scale: loc, -20, 20)
+        locs, scales = np.array([0.3, -7.7, 19.0, 2.0]), np.array([1.0, 0.01, 5.0, 30.0])
+        for arr in itertools.product([-20, -8, 0, 20], repeat=4):
+            n += 1
+            arr = np.array(arr, dtype=np.int32)
+            try:
+                c = ANS(); c.encode_reverse(arr, fam, locs, scales)
+                got = c.decode(fam, locs, scales)
+                r = RENC(); r.encode(arr, fam, locs, scales)
+                got2 = r.get_decoder().decode(fam, locs, scales)
+                if not np.array_equal(got, arr) or not np.array_equal(got2, arr) or not c.is_empty():
+                    fail("Python front end | CustomModel family with per-symbol parameters | round trip fails", f"{list(arr)} -> {list(got)} / {list(got2)}")
+            except BaseException as e:
+                fail("Python front end | CustomModel family with per-symbol parameters | round trip raises", f"{list(arr)}: {type(e).__name__}: {str(e)[:140]}")
+        for dname, dist in (("norm(0.4, 1.3)", scipy.stats.norm(0.4, 1.3)), ("cauchy(6.7, 12.4)", scipy.stats.cauchy(6.7, 12.4)), ("laplace(-3, 0.2)", scipy.stats.laplace(-3.0, 0.2)),
+                            ("norm(0, 1e-6)", scipy.stats.norm(0.0, 1e-6)), ("norm(1e5, 1)", scipy.stats.norm(1e5, 1.0)), ("binom(10, 0.3)", scipy.stats.binom(10, 0.3))):
+            for lo, hi in ((-10, 10), (0, 10), (-100, 100)):
+                n += 1
+                name = f"ScipyModel({dname}, {lo}, {hi})"
+                try:
+                    judge(name, M.ScipyModel(dist, lo, hi), lo, hi)
+                except BaseException as e:
+                    fail("Python front end | ScipyModel | a scipy distribution is refused or fails", f"{name}: {type(e).__name__}: {str(e)[:140]}")
+    return n, failures, counters
+
+
 def main():
     cmd = sys.argv[1]
     if cmd == "vectors":
@@ -1113,6 +1200,8 @@ def main():
         n, f, c = run_ans_histories(int(sys.argv[2]))
     elif cmd == "range_histories":
         n, f, c = run_range_histories(int(sys.argv[2]))
+    elif cmd == "callbacks":
+        n, f, c = run_callbacks(int(sys.argv[2]))
     elif cmd == "seek":
         n, f, c = run_seek(int(sys.argv[2]))
     elif cmd == "impossible":
